@@ -111,8 +111,12 @@ def generate(cgs, variants_of, workdir, render=None):
         for algo, backend in variants_of(cg):
             m = modname(cg["id"], algo, backend)
             path = os.path.join(src, m + ".lalrpop")
+            rfn = render or core.render
+            if cg.get("sugar"):
+                import sugar
+                rfn = sugar.render
             with open(path, "w") as f:
-                f.write((render or core.render)(cg, algo, backend))
+                f.write(rfn(cg, algo, backend))
             job = {"id": m, "file": path, "lane_table": core.ALGOS[algo][1], "timeout_s": 120}
             if cg.get("cfg"):
                 job["features"] = list(cg.get("features", []))
